@@ -705,17 +705,25 @@ class Lift:
     """One lifted function (or fragment)."""
 
     def __init__(self, src, locate, rules=(), loops=None, which=0, expect=1, ctor=False,
-                 fragment_end=None, generic=True, post=(), keep_braces=True):
+                 fragment_end=None, generic=True, post=(), keep_braces=True, optional=False):
         self.src, self.locate, self.rules, self.loops = src, locate, list(rules), loops or {}
         self.which, self.expect, self.ctor = which, expect, ctor
         self.fragment_end, self.generic, self.post = fragment_end, generic, list(post)
         self.keep_braces = keep_braces
+        # optional: a small helper that a refactoring may fold into its caller; when the locator matches nothing the
+        # helper is lifted as an empty body (a remaining call of a function that no longer exists would not compile as C++)
+        self.optional = optional
 
     def run(self):
-        if self.fragment_end:
-            body, line, header = locate_fragment(self.src, self.locate, self.fragment_end)
-        else:
-            body, line, header = locate(self.src, self.locate, self.which, self.expect, self.ctor)
+        try:
+            if self.fragment_end:
+                body, line, header = locate_fragment(self.src, self.locate, self.fragment_end)
+            else:
+                body, line, header = locate(self.src, self.locate, self.which, self.expect, self.ctor)
+        except LiftError as e:
+            if self.optional and "matched 0 times" in str(e):
+                return {"text": "{ }", "line": 1, "file": self.src, "raw": "", "nloops": 0, "header": "", "absent": True}
+            raise
         raw = body
         body = resolve_pp(body)
         body = apply_rules(body, self.rules)
